@@ -100,8 +100,14 @@ package goja
 //@   ensures_abrupt @gNoNewMarkers [no-marker-left-behind]
 
 //@ func (*generator).nextThrow
-//@   props C03 C15
+//@   props C03 C15 C09
 //@   requires g != nil && g.vm != nil
+// When the exception thrown into the generator is not handled inside it, everything the step pushed -
+// the marker of enterNext() and whatever generator frames were restored above it - is gone before the
+// caller's context is popped. (handleThrow also stops at a finally frame latched by return(), which is
+// NOT the marker: popping one frame is not enough then.)
+//@   site popCtx#1 vars g *generator
+//@   site popCtx#1 requires len(g.vm.tryStack) == int(g.tryStackLen)-1 [the-frames-of-the-step-are-gone-before-the-context-is-popped]
 //@   ensures_abrupt len(g.vm.tryStack) < int(g.tryStackLen) [unwound-below-the-recorded-height]
 //@   assigns script, @vmRegs, g.tryStackLen, g.iterStackLen, g.refStackLen
 // Assumed for the returning exits (the suspend/resume bookkeeping of the generator's own frames is not
